@@ -1101,11 +1101,11 @@ theorem hasChildren_eq {m : ClassModel} (wf : WF m) (c : Class) :
 
 theorem cols_of_field (m : ClassModel) (c : Class) (f : Field) :
     ((parseField m c f).filter Attr.isColumn).map
-        (fun a => (a.name, if a.optional then some a.nullable else none)) =
+        (fun a => (a.name, if a.optional then some a.nullable else none, a.colTy)) =
       (match f.kind with
-        | .ref t o => if mapped m t then [(f.name ++ ['_', 'i', 'd'], if o then some true else none)] else []
+        | .ref t o => if mapped m t then [(f.name ++ ['_', 'i', 'd'], if o then some true else none, .key)] else []
         | .coll _ => []
-        | k => [(f.name, if Spec.optOf k then some true else none)]) := by
+        | k => [(f.name, if Spec.optOf k then some true else none, Spec.tyOf k)]) := by
   obtain ⟨n, k⟩ := f
   cases k with
   | scalar s o => cases o <;> rfl
